@@ -319,4 +319,38 @@ func init() {
 		Outside: []string{"fmt.Stringer / error implementations other than the safe types", "pipelines with more than one argument", "user-supplied Funcs", "contents longer than the bound"},
 		Intrinsics: []string{"safehtmlutil.Indirect / indirectToStringerOrError (reflect) modelled on the finite set of dynamic types used", "fmt.Sprint"},
 	})
+
+	reg(&Prop{
+		ID:    "C04",
+		Title: "Sanitization policy is default-deny and never weaker than the reviewed policy",
+		Harnesses: []HarnessSpec{
+			{Pkg: "template", Name: "vHarness_C04_attr", Quick: []ParamRange{{"rel", 0, 0}, {"le", 0, 24}, {"la", 0, 24}}, Thorough: []ParamRange{{"rel", 0, 0}, {"le", 0, 26}, {"la", 0, 26}}, Reach: []string{"accepted", "rejected"},
+				Desc: "symbolic element and attribute names of every length 0..24 (all 256 byte values): accepted => the reviewed policy lists the pair and the class is at least the reviewed class"},
+			{Pkg: "template", Name: "vHarness_C04_attr", Quick: []ParamRange{{"rel", 1, 5}, {"le", 4, 4}, {"la", 4, 4}}, Thorough: []ParamRange{{"rel", 1, 5}, {"le", 3, 5}, {"la", 3, 5}},
+				Desc: "the link/href special case under five rel values"},
+			{Pkg: "template", Name: "vHarness_C04_content", Quick: []ParamRange{{"le", 0, 24}}, Thorough: []ParamRange{{"le", 0, 40}}, Reach: []string{"accepted", "rejected"},
+				Desc: "symbolic element name: element content accepted => listed, with the reviewed class"},
+			{Pkg: "template", Name: "vHarness_C04_positions", Quick: []ParamRange{}, Reach: []string{"name-position", "unquoted", "accepted"},
+				Desc: "symbolic state and delimiter: actions in tag/attribute-name positions and in unquoted values are rejected"},
+			{Pkg: "template", Name: "vHarness_C04_typedonly", Quick: []ParamRange{{"ctx", 0, 7}, {"n", 0, 3}}, Thorough: []ParamRange{{"ctx", 0, 7}, {"n", 0, 5}}, Reach: []string{"ran"},
+				Desc: "typed-only contexts (Script, StyleSheet, Style, Identifier, HTML-only, TrustedResourceURL) reject every plain string"},
+			{Pkg: "template", Name: "vHarness_C04_enum", Quick: []ParamRange{{"ctx", 0, 3}, {"n", 0, 6}}, Thorough: []ParamRange{{"ctx", 0, 3}, {"n", 0, 8}}, Reach: []string{"word"},
+				Desc: "enumerated contexts emit only listed words (= the input) and refuse static partial values"},
+		},
+		Probes: []ProbeSpec{
+			{Pkg: "template", Name: "vProbe_C04_attr", NArgs: 3, Alphabet: "abdefhiklnorstuy-_A1 ", MaxLen: 10, N: 3000, TestDir: "template",
+				Extra: []string{"a", "href", "link", "img", "src", "srcset", "data-x", "data-", "DATA-x", "onclick", "style", "input", "formaction", "iframe", "srcdoc", "aria-owns", "script", "foo", ""}},
+			{Pkg: "template", Name: "vProbe_C04_ref", NArgs: 3, Alphabet: "abdefhiklnorstuy-_A1 ", MaxLen: 10, N: 500, Extra: []string{"a", "href", "link", "img", "src", "data-x", "input", "formaction"}},
+		},
+		Functions: []string{"template.sanitizationContextForAttrVal", "template.sanitizationContextForElementContent", "template.sanitizerForContext", "template.sanitizersForAttributeValue", "template.sanitizerForElementContent",
+			"tables elementSpecificAttrValSanitizationContext, globalAttrValSanitizationContext, elementContentSanitizationContext, allowedVoidElements, urlLinkRelVals, the enum value maps and dataAttributeNamePattern, as built by the real package initialiser",
+			"the typed-only and enum sanitizers"},
+		Bounds: map[string]string{
+			"quick":    "element and attribute names: every byte string of every length 0..24 each (the longest table key has 21 bytes), all 625 length pairs; plain-string data 0..3 bytes for typed-only chains, 0..6 for enum chains",
+			"thorough": "names 0..26; element content names 0..40; data 0..5 / 0..8",
+		},
+		Outside: []string{"whether the reviewed policy (policy/reviewed_policy.json, snapshotted from the pinned tree) is itself right", "names longer than the bound (can match no table key; only dataAttributeNamePattern applies)",
+			"conditional element/attribute names (names lists built by join)", "the link rel rule is compared as implemented (any URL-valued token); its weakness is C02's subject"},
+		Intrinsics: []string{"map lookups with symbolic string keys (ite over the keys of equal length / fork per candidate)", "regexp MatchString", "strings.Fields on concrete rel values"},
+	})
 }
